@@ -42,3 +42,5 @@ pub fn h_vec3<T>(n: usize, mut f: impl FnMut(usize) -> T) -> Vec<T> {
 mod h_shim;
 #[cfg(all(kani, test))]
 mod playback_gen;
+#[cfg(all(kani, test))]
+mod native_diff;
